@@ -268,7 +268,7 @@ def generate(tier, seed, ctx):
     thorough = tier == "thorough"
     R = []
     # ---- general 1-D tables ------------------------------------------------------------------
-    n_tab = 1400 if thorough else 130
+    n_tab = 3000 if thorough else 130
     for k in range(n_tab):
         N = pick_N(rng, tier, k)
         xk = XKINDS[k % len(XKINDS)] if k % 7 else rng.choice(XKINDS)
@@ -276,10 +276,10 @@ def generate(tier, seed, ctx):
         xs = gen_xs(rng, N, xk)
         ys = gen_ys(rng, xs, yk)
         pref, mul = pick_pref(rng)
-        Q = queries_1d(rng, xs, nseg=(14 if thorough else 9), ndense=50, shuffle=(k % 3 != 0))
+        Q = queries_1d(rng, xs, nseg=(20 if thorough else 9), ndense=50, shuffle=(k % 3 != 0))
         R.append(req_1d("c01.eval", "gen:%s:%s" % (xk, yk), xs, ys, -1.0, -1.0, pref, mul, Q))
     # ---- exact linear data (any spacing) --------------------------------------------------------
-    for k in range(60 if thorough else 10):
+    for k in range(150 if thorough else 10):
         N = rng.choice([3, 4, 7, 20, 60])
         g = sorted(set(rng.randint(-2 ** 18, 2 ** 18) for _ in range(N + 3)))
         while len(g) < 3:
@@ -295,7 +295,7 @@ def generate(tier, seed, ctx):
         Q = queries_1d(rng, xs, nseg=8, ndense=6)
         R.append(req_1d("c01.eval", "lin:%s:%s" % (hx(m), hx(q)), xs, ys, -1.0, -1.0, pref, mul, Q))
     # ---- exact parabola data on non-uniform grids, limiter inactive -----------------------------------
-    for k in range(60 if thorough else 12):
+    for k in range(150 if thorough else 12):
         N = rng.choice([3, 4, 6, 15, 40])
         x = rng.randint(100, 400); g = [x]
         for _ in range(N - 1):
@@ -311,13 +311,13 @@ def generate(tier, seed, ctx):
         Q = queries_1d(rng, xs, nseg=8, ndense=6)
         R.append(req_1d("c01.eval", "par:%s:%s:%s" % (hx(al), hx(be), hx(ga)), xs, ys, -1.0, -1.0, pref, mul, Q))
     # ---- dyadic uniform tables: double arithmetic is exact, compared exactly -------------------------
-    for k in range(300 if thorough else 40):
+    for k in range(600 if thorough else 40):
         N = rng.choice([3, 4, 5, 8, 16, 33])
         xs, ys, Q = dyadic_table(rng, N)
         pref = rng.choice([1.0, -1.0, 2.0, 0.5, -4.0])
         R.append(req_1d("c01.eval", "dy", xs, ys, -1.0, -1.0, pref, 1.0, Q))
     # ---- unit factors: float32 tables and factors (products exact) ---------------------------------------
-    for k in range(120 if thorough else 16):
+    for k in range(300 if thorough else 16):
         N = rng.randint(3, 40)
         xs0 = gen_xs(rng, N, rng.choice(["jitter", "wild", "log"]))
         xs0 = sorted(set(f32(x) for x in xs0))
@@ -332,7 +332,7 @@ def generate(tier, seed, ctx):
         Q = queries_1d(rng, xs1, nseg=6, ndense=10)
         R.append(req_1d("c01.eval", "unit", xs0, ys0, xdim, fdim, pref, mul, Q))
     # ---- outcome class A: beyond the 1% zone, malformed tables -----------------------------------------
-    for k in range(60 if thorough else 16):
+    for k in range(150 if thorough else 16):
         N = rng.randint(3, 12)
         xs = gen_xs(rng, N, rng.choice(["jitter", "wild", "offset"]))
         ys = gen_ys(rng, xs, "smooth")
@@ -355,7 +355,7 @@ def generate(tier, seed, ctx):
             ys = ys[:-1]                                                # unequal lengths
         R.append(req_1d("c01.evalx", "bad", xs, ys, -1.0, -1.0, 1.0, 1.0, [(xs[0], -1)]))
     # ---- 2-D ----------------------------------------------------------------------------------------------
-    for k in range(300 if thorough else 45):
+    for k in range(700 if thorough else 45):
         nx = rng.randint(3, 6) if k % 3 else rng.randint(7, 30)
         ny = rng.randint(3, 6) if k % 2 else rng.randint(7, 30)
         fam = ["mixed", "smooth", "bil", "plateau", "unit"][k % 5]
